@@ -352,6 +352,27 @@ theorem path_match_table :
     Gen.CookieGlue.pathMatchTable.all (fun r => pathMatch r.1.toList r.2.1.toList == r.2.2) = true := by
   decide +kernel
 
+/-- **`int()` of the jar's Max-Age** (`int(params["max-age"] or 0)`): the characters Python's `int`
+reads as digits are exactly the runs of ten starting at the regenerated DIGIT ZERO table (no decimal
+digit of the live interpreter lies outside a run; the runs are disjoint and ascending, the ASCII run
+first, so the model's `asciiDigit` finds the one run a digit belongs to); the live `int` agrees with
+that reading on every digit of every run and refuses every other single character (probe evaluated
+over all 0x110000 code points at generation time); and the model maps every digit of every run to
+the ASCII digit of its value and leaves every ASCII character alone. -/
+theorem jar_int_digit_table :
+    Gen.Cookie.decimalStray = [] ∧ Gen.Cookie.decimalIntProbe = true ∧
+    Gen.Cookie.decimalZeros.head? = some 48 ∧
+    Gen.Cookie.decimalZeros.Pairwise (fun a b => a + 9 < b) ∧
+    Gen.Cookie.decimalZeros.all (fun z => (List.range 10).all fun d =>
+      asciiDigit (Char.ofNat (z + d)) == Char.ofNat (48 + d)) = true ∧
+    (List.range 128).all (fun n => asciiDigit (Char.ofNat n) == Char.ofNat n) = true := by
+  decide +kernel
+
+/-- Arabic-Indic, fullwidth and mixed-script digits with a sign and an underscore are read as
+`int()` reads them; a superscript digit (`str.isdigit` but not decimal) is refused -/
+example : pyInt "٣".toList = some 3 ∧ pyInt "-１０".toList = some (-10) ∧ pyInt "+1۲_٣".toList = some 123 ∧
+    pyInt "²".toList = none ∧ pyInt "٣_".toList = none ∧ pyInt "００".toList = some 0 := by decide +kernel
+
 /-! ## every attribute argument of `dump_cookie` -/
 
 /-- a `Lib` for the non-vacuity examples: no idna, `http_date` knows the epoch label only -/
